@@ -153,6 +153,7 @@ def run(ctx):
                         vh.call(op="close", db=db, path=f_)
                         vh.call(op="analyze", db=db, path=f_, text=ws.files[rel])
                 ctx.nontrivial(("phase", "conftests_closed"))
+                order = def_index(vh.call(op="raw", db=db))      # re-analysis moved those files' records to the end
                 judge_workspace(ctx, ws, model, order, "vh",
                                 goto=lambda f, l, c: _vh_goto(vh, db, f, l, c),
                                 refs=lambda f, l, n_: _vh_refs(vh, db, f, l, n_))
